@@ -320,6 +320,50 @@ class SimQueue:
         self.cancel_join.add(self.world.current_proc())
 
 
+class _SentinelShim:
+    """Process.sentinel: becomes ready when the process has ended (usable with connection.wait)"""
+
+    def __init__(self, proc):
+        self.proc = proc
+
+    def __deepcopy__(self, memo):
+        return self
+
+    def _ready(self):
+        return self.proc.dead
+
+    def __hash__(self):
+        return id(self)
+
+    def __int__(self):
+        raise SimUnsupported("integer value of Process.sentinel")
+
+
+def sim_connection_wait(object_list, timeout=None):
+    """multiprocessing.connection.wait(): the objects that are ready (process sentinels, the reading end
+    of queues, pipe connections)"""
+    w = _w()
+    objs = list(object_list)
+
+    def ready_of(o):
+        if isinstance(o, _SentinelShim):
+            return o._ready()
+        if isinstance(o, _ReaderShim):
+            return bool(o.avail())
+        if hasattr(o, "_readable_now"):
+            return o._readable_now() or bool(o.inbox and o.inbox[0].written > 0)
+        raise SimUnsupported("connection.wait on %s" % type(o).__name__)
+
+    any_ready = lambda: any(ready_of(o) for o in objs)
+    if timeout is None:
+        w.seam(Op("conn-wait", "%d" % len(objs), can_run=any_ready))
+    elif timeout <= 0:
+        w.seam(Op("conn-wait0", "%d" % len(objs)))
+    else:
+        w.seam(Op("conn-wait", "%d" % len(objs), can_run=any_ready, can_timeout=lambda: not any_ready(), timeout=timeout))
+    return [o for o in objs if ready_of(o)]
+
+
 class _ReaderShim:
     """`queue._reader.poll(timeout)` is a common way to wait for data without consuming it"""
 
@@ -701,6 +745,7 @@ class SimProcess:
         self.target_done = False
         self.pending_signals = []
         self.sig_handlers = {}
+        self._sentinel = None
         self.reaped_by_other = False  # os.waitpid() outside multiprocessing collected the exit status
         self.status_known = False  # multiprocessing itself has seen the exit status
         self.spawner = None
@@ -753,7 +798,11 @@ class SimProcess:
 
     @property
     def sentinel(self):
-        raise SimUnsupported("Process.sentinel")
+        if not self._started:
+            raise ValueError("process not started")
+        if self._sentinel is None:
+            self._sentinel = _SentinelShim(self)
+        return self._sentinel
 
     def join(self, timeout=None):
         w = self.world
@@ -1239,7 +1288,7 @@ def fault_from_json(d):
 # the fake module
 # ---------------------------------------------------------------------------------------------
 
-_UNSUPPORTED = ["Manager", "connection", "shared_memory", "managers"]
+_UNSUPPORTED = ["Manager", "shared_memory", "managers"]
 
 
 def _unsupported(name):
@@ -1317,6 +1366,13 @@ def make_module():
     pr.current_process = m.current_process
     pr.active_children = m.active_children
     m.process = pr
+    cn = types.ModuleType("multiprocessing.connection")
+    cn.wait = sim_connection_wait
+    cn.Pipe = simpool.sim_pipe
+    cn.Connection = simpool.SimConnection
+    cn.Listener = _unsupported("connection.Listener")
+    cn.Client = _unsupported("connection.Client")
+    m.connection = cn
     pl = types.ModuleType("multiprocessing.pool")
     pl.Pool = simpool.SimPool
     pl.ThreadPool = _unsupported("ThreadPool")
@@ -1324,4 +1380,4 @@ def make_module():
     pl.MapResult = simpool.MapResult
     m.pool = pl
     q.SimpleQueue = simpool.SimSimpleQueue
-    return m, {"multiprocessing.queues": q, "multiprocessing.process": pr, "multiprocessing.pool": pl}
+    return m, {"multiprocessing.queues": q, "multiprocessing.process": pr, "multiprocessing.pool": pl, "multiprocessing.connection": cn}
